@@ -83,12 +83,14 @@ func main() {
 	})
 }
 
-var slashPool = []string{"/a", "/a/", "/{p0}", "/{p0}/", "/*{c0}", "/a/b", "/a/b/", "/a/{p1}", "/a/{p1}/", "/{p0}/b/", "/a/*{c1}", "/a{p0}", "/a{p0}/", "/ab", "/a/bc/", "/*{c0}/b/", "/a/*{c1}/x/"}
+var slashPool = []string{"/a", "/a/", "/{p0}", "/{p0}/", "/*{c0}", "/a/b", "/a/b/", "/a/{p1}", "/a/{p1}/", "/{p0}/b/", "/a/*{c1}", "/a{p0}", "/a{p0}/", "/ab", "/a/bc/", "/*{c0}/b/", "/a/*{c1}/x/",
+	// edges that split in the middle of a segment, right before a slash: /a is a leaf, /ab is only a branching point
+	"/ab/x", "/abx", "/ab/x/"}
 
 // exhaustive enumerates every set of <=3 patterns of a slash-focused pool x every path of <=3 segments (with and
 // without trailing slash) x the two global trailing-slash modes.
 func exhaustive(run *kit.Run) {
-	vals := []string{"a", "b", "bc", "x"}
+	vals := []string{"a", "b", "bc", "x", "ab"}
 	var paths []string
 	var rec func(prefix string, d int)
 	rec = func(prefix string, d int) {
